@@ -587,11 +587,13 @@ func wfRangeReq(o *ObjectRangeRequest) bool {
 //@ func (*GoFakeS3).createObject
 //@ props C09 C08 C12
 //@ requires           inv:    gInv(g) && w != nil && rqInv(r)
-//@ ensures [C08]      reject: imp(err != nil && !g.autoBucket, store_gen == old(store_gen))
+//@ ensures [C08]      reject: imp(err != nil && errcode(err) != "" && !g.autoBucket, store_gen == old(store_gen))
+//@ ensures [C08]      badlen: imp(err == nil && resp_status(w) == 400 && old(resp_status(w)) != 400 && !g.autoBucket, store_gen == old(store_gen))
 //@ func (*GoFakeS3).copyObject
 //@ props C09 C08
 //@ requires           inv:    gInv(g) && w != nil && rqInv(r) && meta != nil
-//@ ensures [C08]      reject: imp(err != nil && !g.autoBucket, store_gen == old(store_gen))
+//@ ensures [C08]      reject: imp(err != nil && errcode(err) != "" && !g.autoBucket, store_gen == old(store_gen))
+//@ modifies store_gen, resp_writes(w), meta[:]
 //@ func (*GoFakeS3).deleteObject
 //@ props C09 C02
 //@ requires           inv:    gInv(g) && w != nil && rqInv(r)
@@ -648,4 +650,10 @@ func wfRangeReq(o *ObjectRangeRequest) bool {
 //@ props C11 C09
 //@ requires           w:      w != nil
 //@ requires [C11]     inside: imp(o != nil, 0 <= o.Start && 1 <= o.Length && o.Start + o.Length <= sz)
+//@ modifies nothing
+
+//@ func (*hashingReader).Sum
+//@ props C01 C08 C09
+//@ requires           wf:     h != nil && h.hash != nil
+//@ ensures [C01]      done:   imp(h.sum != nil, ret0 == h.sum)
 //@ modifies nothing
